@@ -313,7 +313,7 @@ func dataInFlight(q []*sim.Wire) int {
 	return n
 }
 
-func init() { reg("C04random", runC04); reg("C04exhaustive", runC04) }
+func init() { reg("C04random", runC04); reg("C04exhaustive", runC04); reg("C04words", runC04) }
 
 func genC04Ops(t *rapid.T, maxOps int, maxLen int) []C04Op {
 	n := rapid.IntRange(1, maxOps).Draw(t, "nops")
@@ -351,6 +351,22 @@ func TestProp_C04_Random(t *testing.T) {
 		sc := &C04Script{Cfg: genSessCfg(rt), Ops: genC04Ops(rt, maxOps, maxLen)}
 		// very small fragments with long texts only cost time; bound the piece count
 		sim.Judge(rt, "C04random", sc)
+	})
+}
+
+// TestProp_C04_Words: many short words over just {send A, send B, deliver to B, deliver to A}, longer than the
+// exhaustive bound reaches and without anything else in between: which message announces which key, and how many
+// retired keys a message gives up at once, depends on the exact interleaving of these four steps alone.
+func TestProp_C04_Words(t *testing.T) {
+	defer sim.MarkCompleted("C04words", false)
+	alphabet := []C04Op{{K: "s", W: 0, L: 3}, {K: "s", W: 1, L: 3}, {K: "d", W: 0}, {K: "d", W: 1}}
+	rapid.Check(t, func(rt *rapid.T) {
+		n := rapid.IntRange(8, 28).Draw(rt, "len")
+		sc := &C04Script{Cfg: SessCfg{V: rapid.SampledFrom([]int{3, 2}).Draw(rt, "v"), SeedA: 2 * rapid.Uint64Range(1, 1<<20).Draw(rt, "sa"), SeedB: 2*rapid.Uint64Range(1, 1<<20).Draw(rt, "sb") + 1, KeyA: 0, KeyB: 3}}
+		for i := 0; i < n; i++ {
+			sc.Ops = append(sc.Ops, alphabet[rapid.IntRange(0, 3).Draw(rt, "step")])
+		}
+		sim.Judge(rt, "C04words", sc)
 	})
 }
 
